@@ -211,7 +211,7 @@ class World:
             if m == RM.SUBMIT and hasattr(pl, 'return_address'):
                 return {'task': list(pl.return_address), 'bc': [list(b) for b in pl.breadcrumbs]}
             if m == RM.SUBMIT_BATCH:
-                return {'tasks': [list(t.return_address) for t in pl]}
+                return {'tasks': [list(t.return_address) for t in pl], 'bcs': [[list(b) for b in t.breadcrumbs] for t in pl]}
             if m == RM.RESULT and hasattr(pl, 'return_address'):
                 return {'to': list(pl.return_address), 'by': pl.completed_by}
             if m == RM.CANCEL and isinstance(pl, tuple):
